@@ -91,7 +91,7 @@ Fixpoint code_ok (top : bool) (f : obj) : bool :=
       (top || doc_word_ok doc)
       && (fix go (l : list obj) : bool := match l with [] => true | a :: r => code_ok false a && go r end) ll
       && (fix go (l : list obj) : bool := match l with [] => true | a :: r => code_ok false a && go r end) body
-  | Dot xs _ | Vec xs _ _ | Arr _ xs _ _ =>
+  | Dot xs _ | Vec xs _ _ _ | Arr _ xs _ _ =>
       (fix go (l : list obj) : bool := match l with [] => true | a :: r => code_ok false a && go r end) xs
   | Hash kvs => (fix go (l : list (obj * obj)) : bool := match l with [] => true | (_, w) :: r => code_ok false w && go r end) kvs
   | _ => true
@@ -173,7 +173,7 @@ Definition check_case (c : case) : N :=
       check_session hist wildtext snapfail snap1 loadok snap2 textsame probesame
   | DCase v FNone _ _ _ => 0%N      (* nil offers no LoadForm method *)
   | DCase v form r equal texts =>
-      let g := loadable v in
+      let g := loadable v && no_inst v in
       if model_agrees v form r then
         if g then
           match reload v with
@@ -196,7 +196,7 @@ Definition far_quote_count (cs : list case) : N :=
 Definition guarded (c : case) : bool :=
   match c with
   | DCase v FNone _ _ _ => false
-  | DCase v _ _ _ _ => loadable v
+  | DCase v _ _ _ _ => loadable v && no_inst v
   | SCase hist wildtext _ _ _ _ _ _ =>
       negb wildtext && match run empty_session hist with
                        | Ok s => sess_ok_x s && docs_ok s && forallb (fun kv => forallb (code_ok false) (f_ll (snd kv) ++ f_body (snd kv))) (s_funs s)
